@@ -274,6 +274,36 @@ Section V.
     | r :: rest => let '(st1, o) := cf_request F s st r in
                    let '(st2, os) := cf_session F s st1 rest in (st2, o :: os)
     end.
+  (* ---------- several callables: the cache key contains the callable OBJECT (not its name) ----------
+     sigs k = signature of callable number k; a step = (callable number, request).  `Partial[f]` is config_for(f), i.e. the
+     request without arguments.  The allocation log remembers for which callable each class id was created. *)
+  Definition pstate := (list (nat * cfreq * nat) * list nat)%type.
+  Fixpoint pfind (t : list (nat * cfreq * nat)) (k : nat) (r : cfreq) : option nat :=
+    match t with
+    | [] => None
+    | (k', r', c) :: rest => if Nat.eqb k k' && req_eqb r r' then Some c else pfind rest k r
+    end.
+  Definition p_request (F : facts) (sigs : nat -> sig) (st : pstate) (k : nat) (r : cfreq) : pstate * res nat :=
+    let build := setup F (cf_fields F (ignore_names (rq_ignore r)) (rq_over r) (sigs k)) in
+    let fresh := List.length (snd st) in
+    if f_cf_cached F && rq_hashable r then
+      match pfind (fst st) k r with
+      | Some c => (st, Ok c)
+      | None => match build with
+                | Err e => (st, Err e)
+                | Ok _ => (((fst st ++ [(k, r, fresh)])%list, (snd st ++ [k])%list), Ok fresh)
+                end
+      end
+    else match build with
+         | Err e => (st, Err e)
+         | Ok _ => ((fst st, (snd st ++ [k])%list), Ok fresh)
+         end.
+  Fixpoint p_session (F : facts) (sigs : nat -> sig) (st : pstate) (steps : list (nat * cfreq)) : pstate * list (res nat) :=
+    match steps with
+    | [] => (st, [])
+    | (k, r) :: rest => let '(st1, o) := p_request F sigs st k r in
+                        let '(st2, os) := p_session F sigs st1 rest in (st2, o :: os)
+    end.
 End V.
 
 Arguments mkparam {V}. Arguments p_name {V}. Arguments p_kind {V}. Arguments p_ann {V}.
@@ -290,3 +320,4 @@ Arguments partial_call {V}. Arguments cf_run {V}.
 Arguments mkreq {V}. Arguments rq_ignore {V}. Arguments rq_frozen {V}. Arguments rq_over {V}.
 Arguments rq_hashable {V}. Arguments req_eqb {V}. Arguments find_req {V}.
 Arguments cf_request {V}. Arguments cf_session {V}.
+Arguments pfind {V}. Arguments p_request {V}. Arguments p_session {V}.
